@@ -90,7 +90,9 @@ func refRound(x float64, prec int, even bool) (want float64, nearHalf bool) {
 	d := new(big.Rat).Sub(frac, half)
 	df, _ := d.Float64()
 	tf, _ := t.Float64()
-	nearHalf = math.Abs(df) <= 1e-9*(1+math.Abs(tf))
+	// (only meaningful while x·10^prec is a finite float: beyond that there
+	// is no float product whose rounding could be ambiguous)
+	nearHalf = finiteF(tf) && math.Abs(tf) < 0x1p900 && math.Abs(df) <= 1e-9*(1+math.Abs(tf))
 	if fi := x * math.Pow10(prec); finiteF(fi) && new(big.Rat).SetFloat64(fi).Cmp(t) == 0 {
 		// the float product x·10^prec is exact: the rule decides on the true
 		// value and a half-integer is a genuine tie, not a rounding accident
